@@ -8,6 +8,7 @@
 
 extern "C" {
 // cfg: 0 = one toggle with short name; 1 = reversible toggle + option (short, description, env, default) + positionals;
+//      3 = option with a 37-character long name + wrapping description, option with an EMPTY default;
 //      2 = option in the default group, toggle and multi-option (short, default list) in a second group with description
 // target: 0 = fresh string stream, 1 = string stream that already holds `prior` bytes, 2 = non-seekable stream (std::cout model)
 // returns length; text (without the prior content) is copied to out
@@ -38,6 +39,13 @@ static void declare(nitro::options::parser& p, unsigned cfg, char n0, char n1, c
         p.toggle(a).allow_reverse().default_value(true);
         p.option(b, "d e").short_name("x").env("E").default_value("v");
         p.accept_positionals(2);
+    }
+    else if (cfg == 3)
+    {
+        // an entry whose spelling is wider than the description column, with a description that has to wrap,
+        // and an option whose declared default is the empty string
+        p.option(std::string("a-very-long-option-name-of-36-chars-") + a, "aa bb cc dd ee ff gg hh ii jj kk").short_name("x");
+        p.option(b).default_value("");
     }
     else
     {
@@ -89,8 +97,10 @@ unsigned k_usage(unsigned cfg, char n0, char n1, char n2, unsigned target, unsig
 #endif
     }
     std::stringstream s;
-    for (unsigned i = 0; i < prior; ++i)
-        s << '#';
+    // trip count independent of the symbolic input (prior <= 16 in every plan): keeps the unwinding concrete
+    for (unsigned i = 0; i < 16; ++i)
+        if (i < prior)
+            s << '#';
     p.usage(s);
     return put(out, cap, s.str(), prior);
 }
